@@ -567,7 +567,7 @@ func runGio(c *Ctx) {
 						case it.present:
 							want = "false,false"
 						}
-						if want != "" && it.flags[0] != want {
+						if want != "" && it.flags[0] != want && !strings.Contains(it.flags[0], "?") {
 							bad = "notifies with flags (added,removed)=(" + it.flags[0] + ") where the branch requires (" + want + ")"
 						}
 					}
@@ -618,7 +618,28 @@ func runGio(c *Ctx) {
 					if callsField(ev, changed) {
 						cur.notes++
 						if len(ev.Call.Args) == 4 {
-							cur.flags = append(cur.flags, core.ExprString(ev.Call.Args[2])+","+core.ExprString(ev.Call.Args[3]))
+							// the flags as the path decides them: constants, or named booleans (added := !ok)
+							// whose value follows from the branch decisions of this trip
+							flagVal := func(arg ast.Expr) string {
+								if tv, ok := ev.Frame.Info().Types[unparen(arg)]; ok && tv.Value != nil {
+									return tv.Value.ExactString()
+								}
+								f := g.builderAt(i).build(arg, ev.Frame)
+								var since []*r2Lit
+								for j := cur.start; j < i; j++ {
+									if g.lits[j] != nil {
+										since = append(since, g.lits[j])
+									}
+								}
+								if ok, _ := implies(since, f); ok {
+									return "true"
+								}
+								if ok, _ := implies(since, fnot(f)); ok {
+									return "false"
+								}
+								return "?"
+							}
+							cur.flags = append(cur.flags, flagVal(ev.Call.Args[2])+","+flagVal(ev.Call.Args[3]))
 						}
 					}
 					if l := g.lits[i]; l != nil {
@@ -982,7 +1003,11 @@ func expandLocals(e ast.Expr, g *gpath, i int, fr *core.Frame, depth int) ast.Ex
 	case *ast.Ident:
 		if v := identVar(x, fr); v != nil && !v.IsField() {
 			if d, ok := gb.defs[v]; ok && gb.usable(d) && !readsElements(d.expr) {
-				return &ast.ParenExpr{X: expandLocals(d.expr, g, i, d.fr, depth+1)}
+				// only names of sums/differences are looked through (end := len(data) - 1); a local that
+				// names a value (paddingLen := int(trailer)) stays the term the comparisons talk about
+				if be, isBin := unparen(d.expr).(*ast.BinaryExpr); isBin && (be.Op == token.ADD || be.Op == token.SUB) {
+					return &ast.ParenExpr{X: expandLocals(d.expr, g, i, d.fr, depth+1)}
+				}
 			}
 		}
 	case *ast.ParenExpr:
@@ -1287,6 +1312,7 @@ func runGqueue(c *Ctx) {
 			// nil-ness: 0 unknown, 1 nil, 2 non-nil; -1 = unchanged since entry
 			st := map[string]int{headF: -1, tailF: -1}
 			firstWrite := len(p.Events)
+			lastWrite := map[string]int{}
 			freshLocal := map[*types.Var]bool{}
 			fromList := map[*types.Var]bool{}
 			slotOf := map[*types.Var]string{} // local pointer -> the link field it points to
@@ -1348,6 +1374,7 @@ func runGqueue(c *Ctx) {
 					if i < firstWrite {
 						firstWrite = i
 					}
+					lastWrite[f] = i
 					switch {
 					case ev.Rhs == nil || ev.RhsIdx >= 0:
 						st[f] = 0
@@ -1376,6 +1403,24 @@ func runGqueue(c *Ctx) {
 					entry = 1
 				} else if nn, _ := implies(pre, fnot(eq("nil", f))); nn && len(pre) > 0 {
 					entry = 2
+				}
+			}
+			// a field written with a value of unknown nil-ness and tested afterwards (l.head = l.head.next;
+			// if l.head == nil …): the branch decides
+			for _, f := range []string{headF, tailF} {
+				if st[f] != 0 {
+					continue
+				}
+				var after []*r2Lit
+				for j := lastWrite[f] + 1; j < len(p.Events); j++ {
+					if g.lits[j] != nil {
+						after = append(after, g.lits[j])
+					}
+				}
+				if isn, _ := implies(after, eq("nil", f)); isn && len(after) > 0 {
+					st[f] = 1
+				} else if nn, _ := implies(after, fnot(eq("nil", f))); nn && len(after) > 0 {
+					st[f] = 2
 				}
 			}
 			h, t := st[headF], st[tailF]
